@@ -794,14 +794,27 @@ def expand_combinators(raw, raws, max_n=40):
             b['term'] = dict(g, k='switch', discr=args[0], discr_ty='bool', targets=[['0', a_false]], otherwise=a_true, model=best)
             n += 1
         elif fn['def'] == 'std::iter::Iterator::for_each' and len(args) == 2 and args[0].get('k') in ('move', 'copy'):
-            ity = args[0]['place']['ty']
-            it = _new_local(raw, ity)
-            b['stmts'].append(_assign(_loc(it, ity), {'k': 'use', 'op': args[0]}, t))
             cp = _closure_of(raw, args[1])
             if cp is None or cp not in raws or raws[cp]['arg_count'] != 2:
-                b['stmts'].pop()
                 continue
-            item_ty = raws[cp]['locals'][2]['ty']
+            # it.map(g).for_each(f)  ==  it.for_each(|x| f(g(x))): iterate the inner iterator and apply g in the loop body
+            fuse = None
+            l0 = _bare(args[0])
+            d0 = _single_defs(raw).get(l0) if l0 is not None else None
+            if d0 is not None and d0[0] == 'call':
+                tm = d0[3]
+                fm = (tm['func'].get('fn') or {}) if tm['func'].get('k') == 'const' else {}
+                cg = _closure_of(raw, tm['args'][1]) if fm.get('def') == 'std::iter::Iterator::map' and len(tm['args']) == 2 else None
+                if cg is not None and cg in raws and raws[cg]['arg_count'] == 2 and tm['args'][0].get('k') in ('move', 'copy') and tm.get('target') is not None \
+                        and raw['blocks'][d0[1]]['cleanup'] == b['cleanup']:
+                    fuse = (d0[1], tm, cg)
+            src = fuse[1]['args'][0] if fuse else args[0]
+            if fuse:
+                raw['blocks'][fuse[0]]['term'] = dict(g, k='goto', target=fuse[1]['target'], model='map-fused')
+            ity = src['place']['ty']
+            it = _new_local(raw, ity)
+            b['stmts'].append(_assign(_loc(it, ity), {'k': 'use', 'op': src}, t))
+            item_ty = raws[fuse[2] if fuse else cp]['locals'][2]['ty']
             oty = '%s<%s>' % (OPT, item_ty)
             nxt = _new_local(raw, oty, OPT)
             rty = '&mut ' + ity
@@ -820,7 +833,16 @@ def expand_combinators(raw, raws, max_n=40):
                 fn_ty=text, indirect=False, args=[{'k': 'move', 'place': _loc(rf, rty)}], dest=_loc(nxt, oty), target=sw, unwind=uw)
             raw['blocks'][sw]['term'] = dict(g, k='switch', discr={'k': 'move', 'place': _loc(d, 'isize')}, discr_ty='isize', targets=[['0', done], ['1', body]], otherwise=unreach,
                                              model='for_each')
-            if not _apply(raw, raws, body, args[1], [{'k': 'move', 'place': _field(_loc(nxt, oty), 1, 'Some', OPT, item_ty)}], _loc(unit, '()'), hdr, uw, t):
+            item = {'k': 'move', 'place': _field(_loc(nxt, oty), 1, 'Some', OPT, item_ty)}
+            if fuse:
+                mty = raws[fuse[2]]['locals'][0]['ty']
+                mid = _new_local(raw, mty)
+                body2 = _new_block(raw, [], dict(g, k='unreachable'), b['cleanup'])
+                okf = _apply(raw, raws, body, fuse[1]['args'][1], [item], _loc(mid, mty), body2, uw, t) and \
+                    _apply(raw, raws, body2, args[1], [{'k': 'move', 'place': _loc(mid, mty)}], _loc(unit, '()'), hdr, uw, t)
+            else:
+                okf = _apply(raw, raws, body, args[1], [item], _loc(unit, '()'), hdr, uw, t)
+            if not okf:
                 b['stmts'].pop()
                 continue
             b['term'] = dict(g, k='goto', target=hdr, model='for_each')
